@@ -41,11 +41,12 @@ func main() {
 		return
 	}
 	hk.Main(&hk.Component{Name: "calls", Rule: "fault scripts on mcp.NewClient (JSON and SSE answers), mcp.NewSSEClient and mcp.NewStdioClient (child = this binary re-executed) against scripted raw peers: " +
-		"fault kinds {peer closes the connection, reset (SO_LINGER 0), stall, truncation inside headers / inside the frame, kill -9 / exit / closed stdout of the child, kill -9 / exit of a child that has left a helper process behind which still holds its stderr, HTTP 500, none, linger = the peer keeps the POST's event stream open after the complete final answer frame (silently / an SSE comment every 100 ms; with a notification handler registered it ends the stream 250 ms later)} " +
+		"fault kinds {peer closes the connection, reset (SO_LINGER 0), stall, truncation inside headers / inside the frame, kill -9 / exit / closed stdout of the child, kill -9 / exit of a child that has left a helper process behind which still holds its stderr, HTTP 500, HTTP 404 to a request carrying the session id, none, linger = the peer keeps the POST's event stream open after the complete final answer frame (silently / an SSE comment every 100 ms; with a notification handler registered it ends the stream 250 ms later)} " +
 		"x position in the answer {nothing sent, inside the headers, headers done, inside the data (sampled byte offsets; thorough: every offset), data line complete, frame complete} " +
 		"x framing {Content-Length, chunked, until-EOF, pipe} x {1, 3} calls pending x {0, 1} calls answered before the fault x caller context {none, cancel, deadline, transport timeout}; " +
 		"plus handshake scripts on all three clients (the event stream is up and no endpoint event comes; the initialize POST is accepted and never answered / never responded to / reset / answered 500 / by an error reply / by a result that does not parse; notifications/initialized is refused / reset; the child never answers initialize / answers an error / garbage / exits), each followed by Close() after the failed Initialize returned or while it is in flight (the peer answers after the Close), then the census incl. the peer's view of its event streams; " +
 		"plus the server half (raw TCP peers against the real Streamable HTTP and legacy SSE servers: handshake, listening stream, a tools/call blocking on its context; every connection then closed / reset; census), " +
+		"the same census in the configurations of the servers (no context function / one deriving from the context it is given / one returning a context of its own lineage / a cancellable application context, legacy SSE keep-alive on and off), a real client whose session the server forgets behind its back (DELETE from elsewhere, 404 to its next calls, census of its connections after Close), " +
 		"plus server-issued requests (ListRoots / SendRequest from outside and from a tool handler, on the Streamable, legacy SSE and stdio servers) racing with the peer dropping its stream: refused (no stream), written to a dead connection (the stream's handler held at its scheduling point get:woken after the peer's reset / close), write blocked then reset, queue / message channel full (the peer stopped reading), waiting for an answer when every connection is reset, free-running races; once every request has returned the server's pending table must be empty; Close() on a live child, Close() right after Initialize (listening stream started afterwards), kill -9 + Close() with 64 calls pending (in a re-executed copy: a panic there is an observation, not a crash of the harness); " +
 		"every scenario's call outcomes, pending-table size and resource ledger after Close are diffed against the Lean model; model-free oracles: error within 2 s of the fault, return within 1 s of the complete answer (and of the end of the stream where the reader drains it), own nonce in every result, " +
 		"every scenario is bounded in time (a call that has not returned 6 s after the fault / 3 s after its complete answer is the observation 'hung': its goroutine is abandoned and the peer torn down; Close() 8 s; once a hang of a class of scenarios is confirmed the class runs with short ceilings and is skipped after 3 more occurrences; time budget for the whole component), " +
@@ -132,6 +133,9 @@ func enumerate(c *hk.Ctx) []scen {
 			out = append(out, x)
 			if fr == "length" {
 				x.Fault, x.Pos = "http500", "none"
+				out = append(out, x)
+				// 404 to a request that carries the session id: the server has forgotten the session behind the client's back
+				x.Fault = "http404"
 				out = append(out, x)
 				if cb.answered == 0 {
 					for _, f := range []string{"close", "reset"} { // the boundary before the request is read
@@ -438,6 +442,7 @@ func run(c *hk.Ctx) {
 	special("getAfterClose", runGetAfterClose)
 	special("serverSide", runServerSide)
 	special("serverRequests", runServerRequests)
+	special("serverConfigs", runServerConfigs)
 	special("doubleClose", runDoubleClose)
 	c.SetExtra("timing_s", timing)
 	c.SetExtra("solo_reruns", reruns)
